@@ -99,6 +99,7 @@ static void op_ci_decint(FILE *out, const char *id, char **a, int n) { ci_dec_co
 #include "ops_io.h"
 #include "ops_threads.h"
 #include "ops_dl.h"
+#include "ops_update.h"
 
 /* ------------------------------------------------------------------ dispatch */
 
@@ -125,6 +126,7 @@ static struct { const char *name; opfn fn; int forked; } OPS[] = {
     {"IOFAULT", op_iofault, 1},
     {"THREADS", op_threads, 1},
     {"DLFEED", op_dlfeed, 1},
+    {"UPDATE", op_update, 1},
     {NULL, NULL, 0}
 };
 
